@@ -18,11 +18,17 @@ class Opaque:
     pass
 
 
+def bpm_of(code):
+    """a bpm code below 1000 is that many bpm; from 1000 on it is thousandths of a bpm (60040 = 60.04 bpm)"""
+    c = int(code)
+    return c if c < 1000 else c / 1000
+
+
 def tempo(x):
-    b = int(x[0])
+    b = bpm_of(x[0])
     if len(x) == 1:
         return cp.DirectTempo(b)
-    return cp.FlexTempo([[0, b, 0]] + [[int(p[0]) / TICK, int(p[1]), int(p[2])] for p in x[1:]])
+    return cp.FlexTempo([[0, b, 0]] + [[int(p[0]) / TICK, bpm_of(p[1]), int(p[2])] for p in x[1:]])
 
 
 class Note(ce.Chronon):
@@ -44,7 +50,7 @@ def build(x):
         for n, v in x[4]:
             # negative codes stand for non-numeric parameter values (a rest's pitch None, a string, a tuple, a float, and
             # values that happen to be callable: an envelope shape given as a function, a class)
-            setattr(c, f"p{n}", {-1: None, -2: "s", -3: (1, 2), -4: 0.5, -5: math.sin, -6: math.cos, -7: int}.get(int(v), int(v)))
+            setattr(c, f"p{n}", {-1: None, -2: "s", -3: (1, 2), -4: 0.5, -5: math.sin, -6: math.cos, -7: int, -8: float("nan")}.get(int(v), int(v)))
         return c
     cls = ce.Consecution if k == "S" else ce.Concurrence
     return cls([build(c) for c in x[3:]], tag=(None if int(x[1]) == 0 else f"t{x[1]}"), tempo=tempo(x[2]))
